@@ -139,6 +139,28 @@ func runC09(seed uint64, n int, outDir string, replay string) {
 				zoneThr := common.IntrinsicLogEntropy(common.BytesToHash(target.Bytes()))
 				o.Op("order %s %s %s %s %s %s %s %s", intrinsic, zoneThr, blk.ParentDeltaEntropy(common.REGION_CTX), blk.ParentDeltaEntropy(common.ZONE_CTX), primeTarget, regionTarget, primeBits, regionBits)
 				ans(fmt.Sprint(order))
+				// other seals of the same header (not appended): the order is a function of the seal and the recorded deltas,
+				// also for seals lucky enough to be of prime order, which a lone zone never appends
+				{
+					cand := types.CopyWorkObject(blk)
+					found := 0
+					for nonce := uint64(1 << 50); nonce < 1<<50+400_000 && found < 5; nonce++ {
+						cand.WorkObjectHeader().SetNonce(types.EncodeNonce(nonce))
+						ph, err := w.node.eng.ComputePowHash(cand.WorkObjectHeader())
+						if err != nil || new(big.Int).SetBytes(ph.Bytes()).Cmp(target) > 0 {
+							continue
+						}
+						found++
+						ci, co, err := hc.CalcOrder(cand)
+						if err != nil {
+							continue
+						}
+						o.Op("order %s %s %s %s %s %s %s %s", ci, zoneThr, cand.ParentDeltaEntropy(common.REGION_CTX), cand.ParentDeltaEntropy(common.ZONE_CTX), primeTarget, regionTarget, primeBits, regionBits)
+						ans(fmt.Sprint(co))
+						o.Count(fmt.Sprintf("candidate-seal-order:%d", co))
+						cand = types.CopyWorkObject(blk) // a fresh object: no memoised hashes carried over
+					}
+				}
 				o.Op("acc %d %s", order, s)
 				ans(total.String())
 				// --- T3: the block verifies, entropy grows, order / entropy are stable
